@@ -243,7 +243,11 @@ def run_scenario(scenario):
 
     def on_alarm(signum, frame):
         import traceback
-        out['hang_stack'] = ''.join(traceback.format_stack(frame)[-8:])
+        if 'hang_stack' not in out:
+            out['hang_stack'] = ''.join(traceback.format_stack(frame)[-8:])
+        # armed again: the clean-up that runs while this exception propagates (the finally block of the run) may
+        # block as well; the harness clears the alarm when it has left the guarded region
+        signal.alarm(3)
         raise ScenarioTimeout()
 
     old_alarm = signal.signal(signal.SIGALRM, on_alarm)
@@ -299,6 +303,7 @@ def run_scenario(scenario):
             del gen
         del eq
     except ScenarioTimeout:
+        signal.alarm(0)
         out['error'] = 'HARD-CAP: the run did not finish within %d s; parent was at:\n%s' % (
             cap, out.get('hang_stack', '?'))
     except Exception as e:  # pylint: disable=broad-except
